@@ -13,6 +13,7 @@ type Attempt struct {
 	Cands     []int64 // as the action passed them to the vote
 	CandSt    []int64
 	Order     []int64 // evictions in pop order
+	QOrder    []int64 // the candidates in the pop order of the victims queue
 	Pipelined int64   // node the preemptor was pipelined on by this attempt, 0 = none
 	Preemptor int64
 	Action    int64 // 1 preempt, 2 reclaim
@@ -90,7 +91,7 @@ func (w *World) Reconstruct() []Choice {
 			if cur == nil || cur.Task != e.Task {
 				panic(fmt.Sprintf("vote call for t%d outside its task group", e.Task))
 			}
-			att = &Attempt{Node: e.Node, Cands: e.Cands, CandSt: e.CandSt, Preemptor: e.Task, Action: act, Obs: e.obs}
+			att = &Attempt{Node: e.Node, Cands: e.Cands, CandSt: e.CandSt, QOrder: e.QOrder, Preemptor: e.Task, Action: act, Obs: e.obs}
 		case 0:
 			if e.Status == sched.SReleasing {
 				if att == nil || att.done {
@@ -169,6 +170,8 @@ func encAtts(atts []*Attempt) []int64 {
 		out = append(out, a.Cands...)
 		out = append(out, int64(len(a.Order)))
 		out = append(out, a.Order...)
+		out = append(out, int64(len(a.QOrder)))
+		out = append(out, a.QOrder...)
 	}
 	return out
 }
